@@ -1,6 +1,7 @@
 package main
 
 import (
+	"strconv"
 	"fmt"
 	"go/token"
 	"go/types"
@@ -25,6 +26,7 @@ type Obl struct {
 	Cond  string
 	Cover bool
 	Pos   string
+	Blk   int // block in which the obligation arises (-1: none)
 	Prop  string // restrict to property (optional)
 	// results
 	Status     string // proved, failed, unknown, cover-ok, cover-fail
@@ -93,6 +95,8 @@ type FnVC struct {
 	declSet      map[string]bool
 	heapSort     map[string]string
 	facts        []string
+	factBlk      []int // block in which each fact was generated (-1: none)
+	ancCache     map[int]map[int]bool
 	qfacts       []string
 	obls         []*Obl
 	vals         map[ssa.Value]TV
@@ -201,6 +205,47 @@ func (f *FnVC) fact(s string) {
 		return
 	}
 	f.facts = append(f.facts, s)
+	b := -1
+	if f.cur != nil {
+		b = f.cur.Index
+	}
+	f.factBlk = append(f.factBlk, b)
+}
+
+// maxCapFor: an upper bound on the capacity of a slice of the given element type. The Go runtime on 64-bit
+// platforms cannot allocate more than 2^48 bytes (maxAlloc), so cap*elemsize <= 2^48; zero-size elements keep 2^62.
+func maxCapFor(elem types.Type) string {
+	sz := gcSizes.Sizeof(elem)
+	if sz <= 0 {
+		return "4611686018427387904"
+	}
+	return strconv.FormatInt((int64(1)<<48)/sz, 10)
+}
+
+var gcSizes = types.SizesFor("gc", "amd64")
+
+// ancestors returns the blocks from which block b can be reached (b included), over the full CFG.
+func (f *FnVC) ancestors(b int) map[int]bool {
+	if f.ancCache == nil {
+		f.ancCache = map[int]map[int]bool{}
+	}
+	if a, ok := f.ancCache[b]; ok {
+		return a
+	}
+	a := map[int]bool{b: true}
+	work := []int{b}
+	for len(work) > 0 {
+		x := work[len(work)-1]
+		work = work[:len(work)-1]
+		for _, p := range f.fn.Blocks[x].Preds {
+			if !a[p.Index] {
+				a[p.Index] = true
+				work = append(work, p.Index)
+			}
+		}
+	}
+	f.ancCache[b] = a
+	return a
 }
 
 func (f *FnVC) gfact(s string) { // gated by current reach
@@ -227,7 +272,10 @@ func (f *FnVC) oblige(kind, text, cond string, pos token.Pos) *Obl {
 		// the contract does not claim panic freedom: no obligation, and nothing is assumed either
 		return &Obl{}
 	}
-	o := &Obl{ID: len(f.obls), Fn: f.key, Kind: kind, Text: text, Cond: sImp(f.curReach(), cond), Pos: f.posStr(pos), Assumed: true}
+	o := &Obl{ID: len(f.obls), Fn: f.key, Kind: kind, Text: text, Cond: sImp(f.curReach(), cond), Pos: f.posStr(pos), Assumed: true, Blk: -1}
+	if f.cur != nil {
+		o.Blk = f.cur.Index
+	}
 	f.obls = append(f.obls, o)
 	return o
 }
@@ -658,7 +706,8 @@ func (f *FnVC) typeInv(t string, ty types.Type) []string {
 			out = append(out, "(forall ((k Int)) (! (and (<= "+sBig(lo)+" (select "+t+" k)) (<= (select "+t+" k) "+sBig(hi)+")) :pattern ((select "+t+" k))))")
 		}
 	case *types.Slice:
-		out = append(out, "(<= 0 (s_off "+t+"))", "(<= 0 (s_len "+t+"))", "(<= (s_len "+t+") (s_cap "+t+"))", "(<= 0 (s_ref "+t+"))", "(<= (s_cap "+t+") 4611686018427387904)", "(<= (s_off "+t+") 4611686018427387904)",
+		mc := maxCapFor(u.Elem())
+		out = append(out, "(<= 0 (s_off "+t+"))", "(<= 0 (s_len "+t+"))", "(<= (s_len "+t+") (s_cap "+t+"))", "(<= 0 (s_ref "+t+"))", "(<= (s_cap "+t+") "+mc+")", "(<= (s_off "+t+") "+mc+")",
 			"(=> (= (s_ref "+t+") 0) (and (= (s_len "+t+") 0) (= (s_cap "+t+") 0) (= (s_off "+t+") 0)))")
 	case *types.Basic:
 		if u.Info()&types.IsString != 0 {
